@@ -372,6 +372,7 @@ func (n *node) RegisterName(name gen.Atom, pid gen.PID) error {
 	lib.VerifPoint("name.set", p)
 	p.name = name
 
+	lib.VerifPoint("name.recheck", p)
 	if p.isAlive() == false {
 		// the process has been terminated meanwhile and its cleanup could have
 		// missed this name (p.name was not assigned yet). take it back.
